@@ -458,7 +458,7 @@ class SymReal:
     __rmod__ = __floordiv__
 
     def __pow__(self, o):
-        if isinstance(o, (int, float, np.integer, np.floating)) and float(o).is_integer() and abs(o) <= 8:
+        if isinstance(o, (int, float, np.integer, np.floating)) and float(o).is_integer() and abs(o) <= 24:
             k = int(o)
             if k == 0:
                 return 1.0
@@ -500,9 +500,18 @@ class SymReal:
         return self
 
     def __abs__(self):
+        eng = engine()
         if self.d is not None:
             n, d = self.n, self.d
-            return SymReal(None, n=z3.simplify(z3.If(n >= 0, n, -n)), d=z3.simplify(z3.If(d >= 0, d, -d)))
+            sn, sd = eng.implied(n >= 0), eng.implied(d >= 0)
+            n2 = n if sn is True else (-n if sn is False else z3.If(n >= 0, n, -n))
+            d2 = d if sd is True else (-d if sd is False else z3.If(d >= 0, d, -d))
+            return _mk(n2, d2) if (sn is not None and sd is not None) else SymReal(None, n=z3.simplify(n2), d=z3.simplify(d2))
+        s = eng.implied(self._e >= 0)
+        if s is True:
+            return self
+        if s is False:
+            return SymReal(z3.simplify(-self._e))
         return SymReal(z3.simplify(z3.If(self._e >= 0, self._e, -self._e)))
 
     # -- comparisons -------------------------------------------------------
